@@ -109,6 +109,27 @@ WMS_SRS = ['EPSG:3857', 'EPSG:4326', 'EPSG:25832']
 LIMIT_SRS = ['EPSG:3857', 'EPSG:4326', 'EPSG:25832', 'EPSG:900913']
 
 
+_OPEN = None
+
+
+def open_sigs():
+    """open known findings of C10, read once per process (the parent reads them before forking the shards): the
+    files under known_findings.d are rewritten by others while checks run, and generation must not depend on that"""
+    global _OPEN
+    if _OPEN is None:
+        import json
+        import time
+        for attempt in range(20):
+            try:
+                _OPEN = frozenset(core.open_signatures(PROPERTY))
+                break
+            except (json.JSONDecodeError, OSError):
+                if attempt == 19:
+                    raise
+                time.sleep(0.25)
+    return _OPEN
+
+
 def _quiet():
     logging.getLogger('mapproxy').setLevel(logging.CRITICAL)
 
@@ -860,10 +881,10 @@ def requests_(draw, model, open_sigs):
 
 @st.composite
 def cases(draw, n_requests=6):
-    open_sigs = core.open_signatures(PROPERTY)
+    open_sigs_ = open_sigs()
     conf = draw(confs())
     model = Model(conf)
-    reqs = [draw(requests_(model, open_sigs)) for _ in range(n_requests)]
+    reqs = [draw(requests_(model, open_sigs_)) for _ in range(n_requests)]
     return {'conf': conf, 'requests': reqs}
 
 
@@ -1626,7 +1647,7 @@ def evaluate(case, stats, first_only=True):
 
 def check_case(case, stats):
     # a request that only re-finds an open known finding must not hide another violation of the same case
-    known = core.open_signatures(PROPERTY)
+    known = open_sigs()
     vs = evaluate(case, stats, first_only=False)
     for v in vs:
         if v.signature not in known:
@@ -1636,7 +1657,7 @@ def check_case(case, stats):
 
 def search_shard(shard, nshards, seed, tier):
     st_ = core.Stats()
-    total = 800 if tier == 'quick' else 32000
+    total = 2000 if tier == 'quick' else 48000
     n = max(1, total // nshards)
     core.hyp_search(cases(), check_case, st_, max_examples=n, seed=seed, shrink=False)
     return st_
@@ -1644,6 +1665,7 @@ def search_shard(shard, nshards, seed, tier):
 
 def run(tier, seed, stats):
     _quiet()
+    open_sigs()
     stats.merge(core.parallel(search_shard, 16, seed, tier))
 
 
